@@ -112,6 +112,7 @@ class Engine(ExprMixin, CallMixin, StmtMixin):
         self.cur = None
         self.cur_module = None
         self.local_imports = {}
+        self.local_defs = {}
         self.obls = []
         self.loop_pre = {}
         self.path_counter = 0
@@ -295,6 +296,15 @@ class Engine(ExprMixin, CallMixin, StmtMixin):
         if fn in ("fst", "snd"):
             a = self.ev(e.args[0], p)
             return T.scalar(a.ty.a, a.ty.fst(a.t)) if fn == "fst" else T.scalar(a.ty.b, a.ty.snd(a.t))
+        if fn == "helper":       # helper("name", args...): the uninterpreted function that stands for the nested pure helper `name`
+            name = e.args[0].value
+            args = []
+            for a in e.args[1:]:
+                v = self.ev(a, p)
+                if isinstance(v.ty, T.Opt):
+                    v = v.val
+                args.append(v.t)
+            return T.sv_bool(self.local_fn(name, [a.sort() for a in args])(*args))
         if fn == "sel":          # sel(h, k, order, size, up_to): does key k pass the order/size filter
             h, k, order, size, up_to = (self.ev(a, p) for a in e.args)
             lay = self.reg.layouts[h.ty.cls]
@@ -581,6 +591,7 @@ class Engine(ExprMixin, CallMixin, StmtMixin):
         self.cur, self.obls, self.strs, self.loop_pre = c, [], {}, {}
         self.cur_module = c.file
         self.local_imports = {}
+        self.local_defs = {}
         fdef, info = self.load(c)
         loops = [n for n in ast.walk(fdef) if isinstance(n, (ast.For, ast.While))]
         loops.sort(key=lambda n: (n.lineno, n.col_offset))
@@ -632,6 +643,10 @@ class Engine(ExprMixin, CallMixin, StmtMixin):
                 raise Unsupported(f"{out} outside a loop")
             # vacuity canary: this path's hypotheses must not be contradictory
             self.obls.append(Obligation(c.qual, "canary", f"path-feasible", 0, list(q.hyps), z3.BoolVal(False), list(q.trace), "canary"))
+        if len(self.strs) > 1:
+            d = z3.Distinct(list(self.strs.values()))
+            for o in self.obls:
+                o.hyps.append(d)
         for i, o in enumerate(self.obls):
             o.path_id = i
         return self.obls, info, n_paths
